@@ -115,12 +115,15 @@ func (s *Server) handleRequest(ctx context.Context, stream network.Stream) (_err
 		)
 	}()
 
-	if resp.PendingInstance > req.FirstInstance {
+	if limit > 0 && resp.PendingInstance > req.FirstInstance {
 		// Only try to return up-to but not including the pending instance we just told the
 		// client about. Otherwise we could return instances _beyond_ that which is
 		// inconsistent and confusing.
-		end := req.FirstInstance + limit
-		if end >= resp.PendingInstance {
+		//
+		// GetRange is inclusive on both ends, so the last instance to return is
+		// first+limit-1. Clamp if that overflows or reaches the pending instance.
+		end := req.FirstInstance + (limit - 1)
+		if end < req.FirstInstance || end >= resp.PendingInstance {
 			end = resp.PendingInstance - 1
 		}
 
